@@ -5,4 +5,5 @@ id=$1; m=$2; src=/tmp/wt/$id-out/$m; dst=/verif/seeded/$id-$m
 [ -f "$src/patch.diff" ] || { echo "no $src/patch.diff"; exit 1; }
 mkdir -p "$dst"; cp "$src/patch.diff" "$dst/patch.diff"; rm -rf "$dst/demo"; cp -r "$src/demo" "$dst/demo"
 cp "$src/demo_cmd.txt" "$dst/demo_cmd.txt"; cp "$src/README.md" "$dst/AGENT_README.md" 2>/dev/null || true
+git -C /tmp/wt/$id rev-parse HEAD > "$dst/base" 2>/dev/null || git -C /repo rev-parse HEAD > "$dst/base"
 echo "imported $dst"
